@@ -1,6 +1,7 @@
 """Miscellaneous utilities."""
 
 import functools
+import math
 import re
 import typing
 from itertools import count
@@ -130,7 +131,10 @@ class NameDatabase:
         return name
 
     def __getitem__(self, value):
-        if isinstance(value, (int, float, str)):
+        if type(value) in (int, str, bool) or (
+            type(value) is float and math.isfinite(value)
+        ):
+            # Only plain values, whose repr is source code for an equal value
             return repr(value)
         if id(value) in self.names:
             return self.names[id(value)]
